@@ -205,6 +205,10 @@ def u2_files(sc, root: str) -> dict:
                                                   f"class {nm[2]}(_Base{s}):\n    def m_shared(self, from_own: int) -> int:\n        ...\n\n    def m_d2(self) -> int:\n        ...\n\n"
                                                   f"    class Options:\n        def own_opt(self) -> int:\n            ...\n")
         files[f"{sid}/sub/{nm['m2']}.py"] = "def fillb" + s + "() -> int:\n    ...\n"
+    if sc.get("variant") == "genericattr":   # class 1 is generic; a class attribute and a constructor-assigned attribute are typed by its type variable
+        files[f"{sid}/sub/deep/{nm['m1']}.py"] = (f"from typing import Generic, TypeVar\n\nT{s} = TypeVar(\"T{s}\")\n\n\n"
+                                                  f"class {nm[1]}(Generic[T{s}]):\n    content: T{s}\n    plain: int = 1\n\n    def __init__(self, item: T{s}):\n        self.item: T{s} = item\n\n"
+                                                  f"    def m_d1(self) -> int:\n        ...\n\n    def _helper{s}(self) -> int:\n        ...\n")
     if sc.get("variant") == "newtype":       # module 1 also defines a NewType, module 2 uses it
         m1, m2 = f"{sid}/sub/deep/{nm['m1']}.py", f"{sid}/sub/{nm['m2']}.py"
         files[m1] = f"from typing import NewType\n\nIdent{s} = NewType(\"Ident{s}\", int)\n\n\n" + files[m1]
